@@ -64,7 +64,9 @@ Check(R) ==     \* R: id -> row record, bound once
   IN
   [ndom |-> Cardinality({mf \in Models \X Files : Held(mf[1], mf[2]) # {} /\ InCalibDomain(FoldInfo(mf[1], mf[2]))}),
    clauses |->
-  [Completed |-> T.raised = "" \/ LegitTrainError \/ (T.calibrated /\ T.raised_type = "RuntimeError" /\ Len(T.preds) > 0),
+  [\* an explicit calibration error (after the final predictions) is what C11 prescribes when a fold accepts no target; with
+   \* integer raw scores CalibError checks that it is raised exactly then, with real-valued learners it is taken as given
+   Completed |-> T.raised = "" \/ LegitTrainError \/ (T.calib_error /\ T.raised_type = "RuntimeError" /\ Len(T.preds) > 0),
    ExactlyFolds |-> Done => (Cardinality(Models) = T.folds /\ \A m \in Models, f \in Files : Held(m, f) # {}),
    Partition |-> Done => /\ \A f \in Files : UNION {Held(m, f) : m \in Models} = IdsOf(f)
                          /\ PredCount = Cardinality(Ids)                                    \* every row scored once
